@@ -178,9 +178,10 @@ def drive(tier):
         R.add("key.valid", {"pub": b2l(pk)}, {"k": "ret", "res": bool(o)} if kk == "ret" else dict(exc_info(o), k="exc"), _cost=300)
         if ci_ % 2 == 0 or kk != "ret" or not o:
             # a well-formed signature (of another key) checked under this candidate: never true for a non-point, false for a foreign point
-            kk2, res = call(lambda: CPubKey(pk).verify(vdig, vsig))
-            R.add("key.verify", {"pub": b2l(pk), "digest": b2l(vdig), "sig": b2l(vsig), "case": "candidate-key"},
-                  {"k": "ret", "res": bool(res)} if kk2 == "ret" else dict(exc_info(res), k="exc"), _cost=1000)
+            for dg_ in ((vdig, bytes(32), b"\xff" * 32, digests[ci_ % len(digests)]) if (kk != "ret" or not o) else (vdig,)):
+                kk2, res = call(lambda: CPubKey(pk).verify(dg_, vsig))
+                R.add("key.verify", {"pub": b2l(pk), "digest": b2l(dg_), "sig": b2l(vsig), "case": "candidate-key"},
+                      {"k": "ret", "res": bool(res)} if kk2 == "ret" else dict(exc_info(res), k="exc"), _cost=1000)
     return R.recs
 
 
